@@ -13,7 +13,7 @@ from simkit import gen, launch, pipe, ref
 from simkit.kernel import EventLog, Forks, RunStats, Violation, digest, sub_rng
 
 SPEC = {
-    "C05": dict(engine="dbalsim", level="exploration", runs=dict(quick=1500, thorough=40000), chunk=10,
+    "C05": dict(engine="dbalsim", level="exploration", runs=dict(quick=1500, thorough=15000), chunk=10,
                 rule="per run: 1-7 plates of 1-8 experiments (ragged, including size-1 plates and a single plate), 3-8 posterior "
                      "samples (all triples enumerated), variances over six orders of magnitude (homoscedastic real samples or a "
                      "heteroscedastic FakeTheta), a symmetric non-negative distance matrix with zeros; every plate is scored under "
